@@ -3,6 +3,7 @@ use rand::Rng;
 use std::ops::Range;
 
 const INVALID_RANGE_ERR: &str = "max must be greater than min";
+const NON_FINITE_RANGE_ERR: &str = "the distance between min and max must be finite";
 
 fn random_float(min: Value, max: Value) -> Resolved {
     let min = min.try_float()?;
@@ -10,6 +11,11 @@ fn random_float(min: Value, max: Value) -> Resolved {
 
     if max <= min {
         return Err("max must be greater than min".into());
+    }
+
+    // The sampler rejects a range whose width is not a finite float.
+    if !(max - min).is_finite() {
+        return Err(NON_FINITE_RANGE_ERR.into());
     }
 
     let f: f64 = rand::rng().random_range(min..max);
@@ -23,6 +29,10 @@ fn get_range(min: Value, max: Value) -> std::result::Result<Range<f64>, &'static
 
     if max <= min {
         return Err(INVALID_RANGE_ERR);
+    }
+
+    if !(max - min).is_finite() {
+        return Err(NON_FINITE_RANGE_ERR);
     }
 
     Ok(min..max)
